@@ -40,13 +40,28 @@ impl ProtoFmt for std::net::SocketAddr {
     }
 }
 
+/// Constructs a duration from untrusted `seconds` and `nanos`, returning an error
+/// (instead of panicking like `time::Duration::new`) if the value is out of range.
+/// Durations below `i64::MIN` whole seconds + 0 ns are rejected as well,
+/// because they cannot be encoded back with a non-negative `nanos` field.
+fn duration_from_parts(seconds: i64, nanos: i32) -> anyhow::Result<time::Duration> {
+    let d = time::Duration::seconds(seconds)
+        .checked_add(time::Duration::nanoseconds(nanos.into()))
+        .context("duration out of range")?;
+    anyhow::ensure!(
+        d.whole_seconds() > i64::MIN || d.subsec_nanoseconds() >= 0,
+        "duration out of range"
+    );
+    Ok(d)
+}
+
 impl ProtoFmt for time::Utc {
     type Proto = proto::std::Timestamp;
 
     fn read(r: &Self::Proto) -> anyhow::Result<Self> {
         let seconds = *required(&r.seconds).context("seconds")?;
         let nanos = *required(&r.nanos).context("nanos")?;
-        Ok(time::UNIX_EPOCH + time::Duration::new(seconds, nanos))
+        Ok(time::UNIX_EPOCH + duration_from_parts(seconds, nanos)?)
     }
 
     fn build(&self) -> Self::Proto {
@@ -64,7 +79,7 @@ impl ProtoFmt for time::Duration {
     fn read(r: &Self::Proto) -> anyhow::Result<Self> {
         let seconds = *required(&r.seconds).context("seconds")?;
         let nanos = *required(&r.nanos).context("nanos")?;
-        Ok(Self::new(seconds, nanos))
+        duration_from_parts(seconds, nanos)
     }
 
     fn build(&self) -> Self::Proto {
